@@ -55,6 +55,9 @@ class Lock:
 TRANSLATORS = {
     # name: (script, [source paths relative to REPO], output relative to COQ)
     "hid_consts": ("hid_consts.py", ["passkey-transports/src/hid.rs"], "theories/Hid/gen/HidConsts.v"),
+    "psl_table": ("psl_table.py", ["public-suffix/src/tld_list.rs"], "theories/Psl/gen/PslTable.v"),
+    "psl_rules": ("psl_rules.py", ["public-suffix/public_suffix_list.dat"], "theories/Psl/gen/PslRules.v"),
+    "status": ("status.py", ["passkey-types/src/ctap2/error.rs"], "theories/Wire/gen/Status.v"),
 }
 
 
